@@ -258,6 +258,18 @@ theorem C01_breaks_refDeletionResign :
       | .ok db' => decide (db' = db0) | .error _ => false) = true := by
   decide
 
+/-- the reference 1 → 0 stored at row 1 (of member 2) was added by member 3 -/
+def db2 : Db := { db0 with edges := [⟨1, 0, 0, 3, 3⟩] }
+
+/-- **C01_breaks_refRightOnEdgeAuthor (#3, second half — still in /repo).** Member 3 holds the own-rows right only.
+    It deletes the reference it once added at the foreign row 1: the right is judged on the reference's author
+    (own reference: own-rows right suffices) and row 1, which belongs to member 2, is re-dated and re-signed by
+    key 3. With the switch off the all-rows right is required and the deletion is refused. -/
+theorem C01_breaks_refRightOnEdgeAuthor :
+    room0.can 3 1 4 .mutateAll = false ∧
+    authorOf (deleteRef { Defects.none with refRightOnEdgeAuthor := true } rooms01 db2 3 4 1 1 0 0) 1 = some 3 ∧
+    (deleteRef Defects.none rooms01 db2 3 4 1 1 0 0).toBool = false := by decide
+
 /-- **C01_breaks_incomingRefsUnchecked.** The outsider 5 deletes the room-less row 7: the reference stored at
     row 1 of room 0 — which key 5 may not edit — disappears with it. With the switch off the deletion is refused. -/
 theorem C01_breaks_incomingRefsUnchecked :
@@ -288,7 +300,8 @@ def Guard (top : Change) (subs : List Change) : Prop :=
     particular `Defects.asImplemented`). Missing with respect to the full
     statement: the nested sub-entity under an unchanged parent, room moves, reference deletions (#3),
     deletions of referenced rows, and the reference deletion on `sys.Room` (#32), all shown false above or
-    by replay (`corpus/C01`). -/
+    by replay (`corpus/C01`). (#1, #2, the first half of #3 and #32 are fixed in /repo since; the replays stay as
+    regression cases.) -/
 theorem C01_partial (df : Defects) {rooms : List Room} {db db' : Db} {caller : Key} {now : Int} {m : Mut}
     {top : Change} {subs : List Change} (hp : plan db now m = .ok (top, subs)) (hg : Guard top subs)
     (h : mutate df rooms db caller now m = .ok db') :
